@@ -230,6 +230,47 @@ def tie(ctx):
             if len(samples) < 2:
                 samples.append({"genes": [g.name for _, g, _ in genes], "gap": gap, "diplotypes": {os.path.basename(kk3): [s.get_major_diplotype() for s in v] for kk3, v in r1.items()},
                                 "output_lines": len((t1 or "").split("\n"))})
+        # ---- archives written one after the other to ONE path, for samples on different genome builds, each replayed
+        # right after it was written (genome taken from the archive's marker): nothing remembered about the path may
+        # stand in for the archive's content
+        import tarfile as _tf
+        from aldy.common import GRange as _GR
+        for sk in range(1 if quick else 4):
+            y = gen_gene.gen_gene(r, pseudogene=r.random() < 0.5, deletion=True, fusions=0, offsets=(10000, 20000), allow_mnp=False)
+            yp = os.path.join(d, f"shared{sk}.yml")
+            with open(yp, "w") as f:
+                f.write(y)
+            shared = os.path.join(d, f"shared_archive{sk}.tar.gz")
+            for build in ("hg19", "hg38"):
+                g = gen_gene.load(y, build)
+                majors = [a for a, al in g.alleles.items() if al.cn_config == "1"]
+                copies = [(a, sorted(g.alleles[a].minors)[0]) for a in (r.choice(majors), r.choice(majors))]
+                scnr = _GR("20", 60000, 60400)
+                pb_ = os.path.join(d, f"shp{sk}_{build}.bam")
+                sb_ = os.path.join(d, f"shs{sk}_{build}.bam")
+                ln = sim.chrom_length_for(g)
+                sim.write_bam(pb_, sim.simulate_reads(g, [("1", "1.001")] * 2, depth=12, name_prefix="p") + sim.neutral_reads(scnr, 24), length=ln)
+                sim.write_bam(sb_, sim.simulate_reads(g, copies, depth=12, name_prefix="s") + sim.neutral_reads(scnr, 24), length=ln)
+                ddir = os.path.join(d, f"shd{sk}_{build}", "dbg")
+                os.makedirs(ddir, exist_ok=True)
+                fam["dump_replay"]["cases"] += 1
+                try:
+                    r1 = genotype(yp, sb_, pb_, output_file=None, cn_region=scnr, genome=build, debug=os.path.join(ddir, "x"))
+                    e1 = None
+                except AldyException as e:
+                    r1, e1 = {}, str(e)[:80]
+                with _tf.open(shared, "w:gz") as t:
+                    t.add(ddir, arcname="dbg")
+                try:
+                    r2 = genotype(yp, shared, None, output_file=None)
+                    e2 = None
+                except AldyException as e:
+                    r2, e2 = {}, str(e)[:80]
+                stats["shared_path_replays"] += 1
+                if canon_sols(r1) != canon_sols(r2) or (e1 is None) != (e2 is None):
+                    violations.append({"why": f"archive of the {build} sample (written to a path that held another sample's archive before): replay gives {str(canon_sols(r2))[:160]} (error {e2}), "
+                                              f"the run {str(canon_sols(r1))[:160]} (error {e1})", "input": {"gene_yaml": y, "builds": ["hg19", "hg38"], "shared_path": True},
+                                       "signature": "c17:shared_path_replay_differs"})
         # ---- a named profile: `wxs` / `exome` switch copy-number calling off (two copies assumed), `wgs` is an alias
         # of the full model; the replay of the archive must make the same choice. Three gene copies simulated.
         import tarfile
